@@ -1,2 +1,260 @@
-(* Proofs/TotalProofsB.v *)
+(* Proofs/TotalProofsB.v — C11: totality of the decoders (collected from the
+   family proofs), independence of SAM lines, and the fixed-point theorems for
+   FASTQ, FASTA and Newick: every record a reader ACCEPTS from an arbitrary
+   input lies in the domain of the family's round-trip theorem (given the
+   property's cleanliness hypothesis), hence is a fixed point of the codec. *)
 From Bio Require Import Base.
+From Bio.Model Require Fasta Fastq Sam Bed Newick Smtext.
+From Bio.Spec Require FastaSpec FastqSpec NewickSpec SamSpec.
+From Bio.Proofs Require FastaProofsB FastaProofsC FastqProofsB SamProofs SamProofsB SamProofsC
+  NewickProofsC SmtextProofsC.
+
+(* ---- what an item list says about its records -------------------------------------------- *)
+Lemma in_rec_map {A} (r : A) rs : In (Rec r) (map Rec rs) -> In r rs.
+Proof.
+  induction rs as [|a rs IH]; cbn [map In]; [auto|].
+  intros [E|H]; [left; congruence | right; auto].
+Qed.
+
+Lemma in_rec_map_err {A} (r : A) rs : In (Rec r) (map Rec rs ++ [ErrItem]) -> In r rs.
+Proof.
+  intros H. apply in_app_or in H. destruct H as [H|[H|[]]]; [apply in_rec_map, H | discriminate].
+Qed.
+
+(* ================================================================================================
+   BED: parseLine has no panic outcome in the model                                              *)
+Lemma bed_parse_fields_no_panic n f : Bed.parse_fields n f <> Panic.
+Proof.
+  unfold Bed.parse_fields.
+  repeat match goal with |- context [match ?x with _ => _ end] => destruct x end; discriminate.
+Qed.
+
+Lemma bed_parse_line_no_panic fields : Bed.parse_line fields <> Panic.
+Proof.
+  unfold Bed.parse_line.
+  destruct ((length fields <? 3)%nat || (12 <? length fields)%nat); [discriminate|].
+  apply bed_parse_fields_no_panic.
+Qed.
+
+(* ================================================================================================
+   SAM: lines are independent                                                                    *)
+Definition unlines (ls : list bytes) : bytes := concat (map (fun l => l ++ [LF]) ls).
+
+(* what one line (free of CR and LF) contributes: nothing, the header, the
+   record, or one error *)
+Definition item_of_line (o : foracle) (l : bytes) : list (item Sam.entry) :=
+  match l with
+  | [] => []
+  | c :: _ =>
+    if c =? 64 then [Rec (Sam.Hdr l)]
+    else match Sam.parse_line o (split_on TAB l) with
+         | Ok r => [Rec (Sam.Aln r)]
+         | _ => [ErrItem]
+         end
+  end.
+
+Lemma process_line_item o l : clean [CR; LF] l -> Sam.process_line o l = item_of_line o l.
+Proof.
+  intros H. unfold Sam.process_line.
+  rewrite SamProofs.drop_cr_nosep by (eapply SamProofs.clean_nosep; [exact H | left; reflexivity]).
+  destruct l as [|c l]; [reflexivity|]. cbn [item_of_line].
+  destruct (c =? 64); [reflexivity|].
+  destruct (Sam.parse_line o (split_on TAB (c :: l))); reflexivity.
+Qed.
+
+Lemma sam_lines_independent o ls : Forall (clean [CR; LF]) ls ->
+  Sam.reader_header o (unlines ls) TEOF = flat_map (item_of_line o) ls.
+Proof.
+  intros H. unfold unlines. rewrite SamProofsC.reader_header_lines.
+  - induction H as [|l ls Hl _ IH]; [reflexivity|].
+    cbn [flat_map]. rewrite IH, process_line_item by exact Hl. reflexivity.
+  - eapply Forall_impl; [|exact H]. intros l Hl.
+    eapply SamProofs.clean_nosep; [exact Hl | right; left; reflexivity].
+Qed.
+
+Lemma unlines_app a b : unlines (a ++ b) = unlines a ++ unlines b.
+Proof. unfold unlines. rewrite map_app, concat_app. reflexivity. Qed.
+
+(* one malformed line in a file: exactly one error in its position, what is
+   before and after it is read as if the line were not there *)
+Lemma sam_bad_line_isolated o pre bad post :
+  Forall (clean [CR; LF]) pre -> clean [CR; LF] bad -> Forall (clean [CR; LF]) post ->
+  item_of_line o bad = [ErrItem] ->
+  Sam.reader_header o (unlines (pre ++ bad :: post)) TEOF
+  = Sam.reader_header o (unlines pre) TEOF ++ [ErrItem] ++ Sam.reader_header o (unlines post) TEOF.
+Proof.
+  intros Hpre Hbad Hpost E.
+  rewrite !sam_lines_independent; try assumption.
+  - rewrite flat_map_app. cbn [flat_map]. rewrite E. reflexivity.
+  - apply Forall_app. split; [assumption | constructor; assumption].
+Qed.
+
+(* the malformed lines of the property are errors *)
+Lemma item_of_line_err o c l : (c =? 64) = false ->
+  Sam.parse_line o (split_on TAB (c :: l)) = Err -> item_of_line o (c :: l) = [ErrItem].
+Proof. intros Hc E. cbn [item_of_line]. rewrite Hc, E. reflexivity. Qed.
+
+Lemma parse_line_too_few o fs : (length fs < 11)%nat -> Sam.parse_line o fs = Err.
+Proof.
+  intros H. unfold Sam.parse_line.
+  do 11 (destruct fs as [|? fs]; [reflexivity|]). cbn [length] in H. lia.
+Qed.
+
+Lemma parse_line_bad_int o f0 f1 f2 f3 f4 f5 f6 f7 f8 f9 f10 rest :
+  atoi f1 = None \/ atoi f3 = None \/ atoi f4 = None \/ atoi f7 = None \/ atoi f8 = None ->
+  Sam.parse_line o (f0 :: f1 :: f2 :: f3 :: f4 :: f5 :: f6 :: f7 :: f8 :: f9 :: f10 :: rest) = Err.
+Proof.
+  intros H. unfold Sam.parse_line, Sam.parse_ints. cbn [length Nat.eqb Sam.parse_ints_loop].
+  destruct (atoi f1); [|reflexivity].
+  destruct (atoi f3); [|reflexivity].
+  destruct (atoi f4); [|reflexivity].
+  destruct (atoi f7); [|reflexivity].
+  destruct (atoi f8); [|reflexivity].
+  exfalso. destruct H as [H|[H|[H|[H|H]]]]; discriminate.
+Qed.
+
+Lemma parse_tags_from_bad o : forall tags m bad,
+  In bad tags ->
+  (Sam.split_tag bad = None \/
+   exists name ty v, Sam.split_tag bad = Some (name, ty, v) /\ Sam.parse_tag_value o ty v = None) ->
+  Sam.parse_tags_from o m tags = Err.
+Proof.
+  induction tags as [|t tags IH]; intros m bad Hin Hbad; [destruct Hin|].
+  cbn [Sam.parse_tags_from].
+  destruct Hin as [->|Hin].
+  - destruct Hbad as [E|[name [ty [v [E1 E2]]]]]; [rewrite E; reflexivity|].
+    rewrite E1, E2. reflexivity.
+  - destruct (Sam.split_tag t) as [[[name ty] v]|]; [|reflexivity].
+    destruct (Sam.parse_tag_value o ty v); [|reflexivity].
+    eapply IH; eassumption.
+Qed.
+
+(* an ill-formed (fewer than two colons) or ill-typed (unknown type letter, or a
+   value the type does not admit) tag anywhere among the tags *)
+Lemma parse_line_bad_tag o f0 f1 f2 f3 f4 f5 f6 f7 f8 f9 f10 rest bad :
+  In bad rest ->
+  (Sam.split_tag bad = None \/
+   exists name ty v, Sam.split_tag bad = Some (name, ty, v) /\ Sam.parse_tag_value o ty v = None) ->
+  Sam.parse_line o (f0 :: f1 :: f2 :: f3 :: f4 :: f5 :: f6 :: f7 :: f8 :: f9 :: f10 :: rest) = Err.
+Proof.
+  intros Hin Hbad. unfold Sam.parse_line, Sam.parse_ints. cbn [length Nat.eqb Sam.parse_ints_loop].
+  destruct (atoi f1); [|reflexivity].
+  destruct (atoi f3); [|reflexivity].
+  destruct (atoi f4); [|reflexivity].
+  destruct (atoi f7); [|reflexivity].
+  destruct (atoi f8); [|reflexivity].
+  cbn [obind]. unfold Sam.parse_tags. rewrite (parse_tags_from_bad o rest [] bad Hin Hbad). reflexivity.
+Qed.
+
+(* ================================================================================================
+   FASTQ: accepted records are fixed points                                                       *)
+Definition fastq_clean (r : Fastq.fastq) : Prop :=
+  clean [LF; CR] (Fastq.name r) /\ clean [LF; CR] (Fastq.seq r) /\ clean [LF; CR] (Fastq.quals r).
+
+Lemma fastq_accepted_lengths x t r :
+  In (Rec r) (Fastq.decode x t) -> length (Fastq.quals r) = length (Fastq.seq r).
+Proof.
+  intros H. destruct (FastqProofsB.decode_shape x t) as [rs [HF [E|[_ E]]]]; rewrite E in H.
+  - apply in_rec_map_err in H. rewrite Forall_forall in HF. exact (HF r H).
+  - apply in_rec_map in H. rewrite Forall_forall in HF. exact (HF r H).
+Qed.
+
+Lemma fastq_fixed_point x t r :
+  In (Rec r) (Fastq.decode x t) -> fastq_clean r ->
+  Fastq.decode (Fastq.write r) TEOF = [Rec r].
+Proof.
+  intros Hin [Hn [Hs Hq]].
+  assert (Hok : FastqSpec.fq_ok r).
+  { repeat split; try assumption. symmetry. eapply fastq_accepted_lengths, Hin. }
+  pose proof (FastqProofsB.roundtrip [r] (Forall_cons _ Hok (Forall_nil _))) as R.
+  cbn [map concat] in R. rewrite app_nil_r in R. exact R.
+Qed.
+
+(* ================================================================================================
+   FASTA: accepted names and sequences are free of CR/LF by construction of the
+   byte machine; the only hypothesis left is "no '>' in the sequence"                            *)
+Definition nonl (l : bytes) : Prop := Forall (fun b => Fasta.is_nl b = false) l.
+
+Lemma rd_loop_nonl : forall inp st nm sq any res o,
+  Fasta.rd_loop st nm sq any inp = (res, o) -> nonl nm -> nonl sq ->
+  nonl (fst (fst res)) /\ nonl (snd (fst res)).
+Proof.
+  induction inp as [|b rest IH]; intros st nm sq any res o H Hn Hs; cbn [Fasta.rd_loop] in H.
+  - injection H as <- _. split; assumption.
+  - destruct st;
+      repeat match type of H with context [if ?c then _ else _] => destruct c eqn:? end;
+      try (injection H as <- _; split; assumption);
+      (eapply IH; [exact H | |]; try assumption; constructor; assumption).
+Qed.
+
+Lemma nonl_rev_append l : nonl l -> nonl (rev_append l []).
+Proof. intros H. rewrite rev_append_rev, app_nil_r. apply Forall_rev, H. Qed.
+
+Lemma read_one_nonl inp t r rest :
+  Fasta.read_one inp t = Fasta.RdRec r rest -> nonl (Fasta.name r) /\ nonl (Fasta.seq r).
+Proof.
+  unfold Fasta.read_one. intros H.
+  destruct (Fasta.rd_loop Fasta.SStart [] [] false inp) as [[[nm sq] any] o] eqn:E.
+  pose proof (rd_loop_nonl _ _ _ _ _ _ _ E (Forall_nil _) (Forall_nil _)) as [Hn Hs].
+  cbn [fst snd] in Hn, Hs.
+  assert (G : nonl (Fasta.name (Fasta.mk_result nm sq)) /\ nonl (Fasta.seq (Fasta.mk_result nm sq))).
+  { unfold Fasta.mk_result. cbn [Fasta.name Fasta.seq]. split; apply nonl_rev_append; assumption. }
+  destruct o as [rest'|].
+  - injection H as <- _. exact G.
+  - destruct (negb any); [destruct t; discriminate|].
+    destruct t; [|discriminate]. injection H as <- _. exact G.
+Qed.
+
+Lemma decode_fuel_nonl : forall f inp t r,
+  In (Rec r) (Fasta.decode_fuel f inp t) -> nonl (Fasta.name r) /\ nonl (Fasta.seq r).
+Proof.
+  induction f as [|f IH]; intros inp t r H; cbn [Fasta.decode_fuel] in H; [destruct H|].
+  destruct (Fasta.read_one inp t) as [r0 rest| |] eqn:E.
+  - destruct H as [H|H]; [injection H as ->; eapply read_one_nonl, E | eapply IH, H].
+  - destruct H.
+  - destruct H as [H|[]]. discriminate.
+Qed.
+
+Lemma is_nl_false b : Fasta.is_nl b = false -> (b =? CR) = false /\ (b =? LF) = false.
+Proof. unfold Fasta.is_nl. intros H. apply orb_false_elim in H. tauto. Qed.
+
+Lemma nonl_clean l : nonl l -> clean [CR; LF] l.
+Proof.
+  intros H. eapply Forall_impl; [|exact H]. intros b Hb. cbn beta in Hb.
+  apply is_nl_false in Hb. destruct Hb as [H1 H2]. unfold memb. cbn [existsb]. rewrite H1, H2. reflexivity.
+Qed.
+
+Lemma nonl_clean_gt l : nonl l -> ~ In Fasta.GT l -> clean [CR; LF; Fasta.GT] l.
+Proof.
+  intros H Hgt. induction H as [|b l Hb Hl IH]; [constructor|].
+  constructor.
+  - apply is_nl_false in Hb. destruct Hb as [H1 H2]. unfold memb. cbn [existsb]. rewrite H1, H2.
+    cbn [orb]. rewrite orb_false_r. apply N.eqb_neq. intros ->. apply Hgt. left. reflexivity.
+  - apply IH. intros Hin. apply Hgt. right. exact Hin.
+Qed.
+
+Lemma fasta_accepted_ok x t r :
+  In (Rec r) (Fasta.decode x t) -> ~ In Fasta.GT (Fasta.seq r) -> FastaSpec.fa_ok r.
+Proof.
+  intros Hin Hgt. destruct (decode_fuel_nonl _ _ _ _ Hin) as [Hn Hs].
+  split; [apply nonl_clean, Hn | apply nonl_clean_gt; assumption].
+Qed.
+
+Lemma fasta_fixed_point x t r :
+  In (Rec r) (Fasta.decode x t) -> ~ In Fasta.GT (Fasta.seq r) ->
+  Fasta.decode (Fasta.write r) TEOF = [Rec r].
+Proof.
+  intros Hin Hgt.
+  pose proof (FastaProofsC.write_read_roundtrip [r]
+                (Forall_cons _ (fasta_accepted_ok x t r Hin Hgt) (Forall_nil _))) as R.
+  cbn [map concat] in R. rewrite app_nil_r in R. exact R.
+Qed.
+
+(* ================================================================================================
+   Newick: any accepted tree whose non-zero distances meet strconv's contract; names need no
+   hypothesis at all (quoting).  The tree read back is [norm t]: a distance -0 is not written
+   and reads back as 0.                                                                           *)
+Lemma newick_fixed_point o x t items tr :
+  Newick.decode o x t = Ok items -> In (Rec tr) items -> NewickSpec.floats_ok o tr ->
+  Newick.decode o (Newick.marshal o tr) TEOF = Ok [Rec (NewickSpec.norm tr)].
+Proof. intros _ _ H. apply NewickProofsC.decode_marshal, H. Qed.
